@@ -9,7 +9,10 @@ Re-entrant calls (write_text calls open) count once.  With `crash_at = k` the
 process dies with os._exit(77) immediately before effect number k (1-based) —
 no `__exit__`, no rollback code, no atexit handler runs.  With `torn = (k, frac)`
 the k-th effect, if it is a file write, is applied partially (the file is left
-holding the first `frac` of its new content) and then the process dies.
+holding the first `frac` of its new content) and then the process dies.  With
+`crash_after = k` the process dies the moment effect k's call has returned, before
+any Python code that follows it runs (so nothing still sitting in a write buffer of
+an open file reaches the disk).
 """
 
 from __future__ import annotations
@@ -22,9 +25,11 @@ CRASH_EXIT = 77
 
 
 class Recorder:
-    def __init__(self, crash_at: Optional[int] = None, torn: Optional[tuple] = None, root: str = "") -> None:
+    def __init__(self, crash_at: Optional[int] = None, torn: Optional[tuple] = None, root: str = "",
+                 crash_after: Optional[int] = None) -> None:
         self.effects: list[tuple[str, str]] = []
         self.crash_at = crash_at
+        self.crash_after = crash_after
         self.torn = torn
         self.depth = 0
         self.root = root
@@ -40,6 +45,11 @@ class Recorder:
         if self.crash_at is not None and n == self.crash_at:
             os._exit(CRASH_EXIT)
         return n
+
+    def done(self, n: int) -> None:
+        """Effect n's call has returned; may kill the process."""
+        if self.crash_after is not None and n == self.crash_after:
+            os._exit(CRASH_EXIT)
 
 
 def install(rec: Recorder) -> None:
@@ -66,9 +76,11 @@ def install(rec: Recorder) -> None:
             os._exit(CRASH_EXIT)
         rec.depth += 1
         try:
-            return orig_write_text(self, data, *a, **k)
+            res = orig_write_text(self, data, *a, **k)
         finally:
             rec.depth -= 1
+        rec.done(n)
+        return res
 
     def open_(self, mode="r", *a, **k):
         if rec.depth or not any(c in mode for c in "wax+"):
@@ -86,30 +98,40 @@ def install(rec: Recorder) -> None:
     def touch(self, *a, **k):
         if rec.depth:
             return orig_touch(self, *a, **k)
-        rec.effect("touch", self)
-        return orig_touch(self, *a, **k)
+        n = rec.effect("touch", self)
+        res = orig_touch(self, *a, **k)
+        rec.done(n)
+        return res
 
     def unlink(self, *a, **k):
         if rec.depth:
             return orig_unlink(self, *a, **k)
-        rec.effect("unlink", self)
-        return orig_unlink(self, *a, **k)
+        n = rec.effect("unlink", self)
+        res = orig_unlink(self, *a, **k)
+        rec.done(n)
+        return res
 
     def rename(self, target, *a, **k):
         if rec.depth:
             return orig_rename(self, target, *a, **k)
-        rec.effect("rename", f"{rec.rel(self)} -> {rec.rel(target)}")
-        return orig_rename(self, target, *a, **k)
+        n = rec.effect("rename", f"{rec.rel(self)} -> {rec.rel(target)}")
+        res = orig_rename(self, target, *a, **k)
+        rec.done(n)
+        return res
 
     def replace(self, target, *a, **k):
         if rec.depth:
             return orig_replace(self, target, *a, **k)
-        rec.effect("replace", f"{rec.rel(self)} -> {rec.rel(target)}")
-        return orig_replace(self, target, *a, **k)
+        n = rec.effect("replace", f"{rec.rel(self)} -> {rec.rel(target)}")
+        res = orig_replace(self, target, *a, **k)
+        rec.done(n)
+        return res
 
     def commit(self, *a, **k):
-        rec.effect("commit", "zorg.db")
-        return orig_commit(self, *a, **k)
+        n = rec.effect("commit", "zorg.db")
+        res = orig_commit(self, *a, **k)
+        rec.done(n)
+        return res
 
     P.write_text = write_text
     P.open = open_
